@@ -140,6 +140,30 @@ theorem requestLen_exact (t : Transport) (L : Nat) (ht : Transport.HasLimit t L)
     simp only [requestLen, ht.1, prepareLen_of_fits L ops hw hov, ht.2]
     simp [hov]
 
+/-- **Oneway and Publish** (`FStandardClient.Oneway`, `FStandardClient.Publish`): over every
+transport an oversize message is not handed to the wire and the caller gets
+REQUEST_TOO_LARGE; a message within the limit is handed over and the call returns nil. -/
+theorem c12_oneway_publish_exact (ops : List Op) (hw : Writes ops) (hne : ops ≠ []) (q : Nat) :
+    (∀ t L, (t, L) ∈ [(natsTransport, natsMaxMessageSize), (natsPublisher, natsMaxMessageSize),
+                      (httpTransport q, q), (stompPublisher q, q)] →
+      (Over L ops → sendOnly t ops = ⟨false, some .requestTooLarge⟩) ∧
+      (¬ Over L ops → sendOnly t ops = ⟨true, none⟩)) := by
+  intro t L hmem
+  have key : ∀ t L, Transport.HasLimit t L →
+      (Over L ops → sendOnly t ops = ⟨false, some .requestTooLarge⟩) ∧
+      (¬ Over L ops → sendOnly t ops = ⟨true, none⟩) := by
+    intro t L ht
+    have h := requestLen_exact t L ht ops hw hne
+    constructor <;> intro hov
+    · simp only [sendOnly, h.1 hov]
+    · simp only [sendOnly, h.2 hov]
+  simp only [List.mem_cons, Prod.mk.injEq, List.mem_nil_iff, or_false] at hmem
+  rcases hmem with ⟨rfl, rfl⟩ | ⟨rfl, rfl⟩ | ⟨rfl, rfl⟩ | ⟨rfl, rfl⟩
+  · exact key _ _ nats_hasLimit
+  · exact key _ _ natsPublisher_hasLimit
+  · exact key _ _ (http_hasLimit _)
+  · exact key _ _ (stomp_hasLimit _)
+
 /-- All steps of the error reply are write operations. -/
 def SegWrites (segs : List (List Op)) : Prop := ∀ s ∈ segs, Writes s
 
